@@ -29,7 +29,16 @@ def _java(p):
     return f
 
 
+def _refactor(p):
+    def f():
+        from . import p_refactor
+        return p_refactor.make(p)
+    return f
+
+
 REGISTRY = {
+    "C05": _refactor("C05"),
+    "C06": _refactor("C06"),
     "C01": _java("C01"),
     "C02": _java("C02"),
     "C07": _java("C07"),
